@@ -26,7 +26,15 @@ class PluginAbort(BaseException):
     pass
 
 
+SUBMIT = {'fn': None}        # how a plugin reaches the agent's task handler (set by the bench that uses cls 'submit')
+
+
 def _boom(cls, what):
+    if cls == 'submit':
+        # the realistic BaseException: a plugin hands the agent one last task from its callback; after the task handler
+        # was flushed and closed submit_task raises deep.task.IllegalStateException (a BaseException)
+        SUBMIT['fn'](lambda: None)
+        return
     raise (PluginAbort if cls == 'base' else PluginError)(what)
 
 
@@ -126,6 +134,7 @@ class Recorder:
     def __init__(self):
         self.events = []
         self.lock = threading.Lock()
+        self.hooks = {}             # (plugin name, callback) -> callable run inside the callback (gates)
 
     def add(self, *ev):
         with self.lock:
@@ -149,6 +158,9 @@ class FcPlugin(Plugin):
         n = self.ncalls.get(cb, 0) + 1
         self.ncalls[cb] = n
         self.rec.add(self._name, cb, detail)
+        hook = self.rec.hooks.get((self._name, cb))
+        if hook is not None:
+            hook()
         if cb in self.fail:
             _boom(self.fail[cb], f'{self._name}.{cb}')
         if n in self.fail_at.get(cb, ()):
